@@ -287,6 +287,9 @@ Definition wide_popcnt_parity (n : nat) (a : list N) : Z := Z.of_N (N.land (popc
 (* ------------------------------------------------------------------ masks (in place on dst) *)
 Definition zero_from (d : list N) (from n : nat) : list N :=
   fold_left (fun d i => upd d i 0) (seq from (n - from)) d.
+(* full_words + if remaining > 0 { 1 } else { 0 } *)
+Definition first_clear (full_words : nat) (remaining : N) : nat :=
+  if 0 <? remaining then S full_words else full_words.
 
 Definition wide_apply_mask (dst : list N) (packed : N) : list N :=
   let nb := unpack_nb packed in
@@ -299,7 +302,7 @@ Definition wide_apply_mask (dst : list N) (packed : N) : list N :=
     let d1 := if (0 <? remaining) && (full_words <? n)%nat
               then upd dst full_words (N.land (rd dst full_words) (N.shiftl 1 remaining - 1))
               else dst in
-    zero_from d1 (full_words + (if 0 <? remaining then 1 else 0))%nat n.
+    zero_from d1 (first_clear full_words remaining) n.
 
 Definition wide_fill_ones (dst : list N) (packed : N) : list N :=
   let nb := unpack_nb packed in
@@ -313,4 +316,4 @@ Definition wide_fill_ones (dst : list N) (packed : N) : list N :=
     let d1 := if (0 <? remaining) && (full_words <? n)%nat
               then upd d0 full_words (N.shiftl 1 remaining - 1)
               else d0 in
-    zero_from d1 (full_words + (if 0 <? remaining then 1 else 0))%nat n.
+    zero_from d1 (first_clear full_words remaining) n.
